@@ -297,6 +297,7 @@ type c34Side struct {
 	rdlDone   time.Time   // read deadline of the last completed SetDeadline/SetReadDeadline call on this side
 	rdlPending []time.Time // read deadlines of such calls that are executing right now
 	spurious  string      // a Read timed out before every read deadline the application had set
+	eofAgain  string      // a Read issued after the clean end of the stream did not report EOF again
 	closeRet  time.Time   // when the first Close call of this side returned
 	closeDur  time.Duration // how long the slowest Close call of this side took (minus 5 s per overlapping CloseWrite)
 	cwActive, cwDone int    // CloseWrite calls of this side in progress / completed
@@ -471,6 +472,15 @@ func execC34(t *testing.T, scAny any, keepLog bool) *Outcome {
 							sd.idleEnd = true
 						}
 						break
+					}
+				}
+				// An application may well call Read again after the stream has ended (a second reader, a retry loop):
+				// that call returns too — at once after a clean EOF, and with EOF again.
+				if !sd.localClose && !sd.sticky {
+					tAgain := s.Now()
+					_, err2 := sd.conn.Read(buf)
+					if sd.cleanEOF && !sd.abrupt && (err2 == nil || err2.Error() != "EOF" || s.Now().Sub(tAgain) > time.Second) {
+						sd.eofAgain = fmt.Sprintf("a Read after the peer's close_notify returned %v after %v (the first one returned EOF)", err2, s.Now().Sub(tAgain))
 					}
 				}
 				if sd.cleanEOF && sc.LingerMs[side] > 0 {
@@ -656,6 +666,11 @@ func execC34(t *testing.T, scAny any, keepLog bool) *Outcome {
 			if !kuOps && !movesWdl && sd.closeDur > 6*time.Second {
 				o.Fail = Failf("c34.close_slow", "Close blocked for longer than its own 5 s guard (it waited for a stalled Write instead of interrupting it)", "side %d: Close took %v", side, sd.closeDur)
 				break
+			}
+		}
+		for side := 0; side < 2 && o.Fail == nil; side++ {
+			if ea := sides[side].eofAgain; ea != "" {
+				o.Fail = Failf("c34.eof_not_sticky", "the end of the inbound stream is reported to one Read only", "side %d: %s", side, ea)
 			}
 		}
 		for side := 0; side < 2 && o.Fail == nil; side++ {
